@@ -71,9 +71,10 @@ func CheckCLI(prop string, c *Case, proc ProcessFunc, cov *Cov) []*Violation {
 			if cov != nil {
 				cov.Probe("cli-block-points")
 			}
+			held := heldAt(s, del)
 			for nextJunk < len(s.Lines) && s.Lines[nextJunk].End <= del {
 				l := s.Lines[nextJunk]
-				if l.Class == gen.Junk && !l.Blank && l.Term && !isRaceLook(b[l.Start:l.End]) {
+				if l.Class == gen.Junk && !l.Blank && l.Term && !held[nextJunk] {
 					i := bytes.Index(w.Buf[wpos:], b[l.Start:l.End])
 					if i < 0 {
 						add("withheld-line", "", fmt.Sprintf("stdin blocks after %d bytes; the complete pass-through line %s was delivered but is not yet in the output (%d bytes written so far)", del, Clip(b[l.Start:l.End], 80), len(w.Buf)))
@@ -170,6 +171,8 @@ func RunCLIBatch(prop string, seed uint64, offset, stride, runs int, proc Proces
 		case "C07":
 			cfg.MinDumps = 1
 			cfg.MaxDumps = r.Range(1, 5)
+		case "C11":
+			cfg.ExactRaceSep, cfg.NoWarnAfterSep = r.Chance(0.15), true
 		}
 		cfg.VeryLong = false
 		doc := gen.Generate(r, cfg)
